@@ -1,5 +1,6 @@
 import BoltonsVerif.C01.Proofs
 import BoltonsVerif.C01.ConcreteProofs
+import BoltonsVerif.C01.OwnProofs
 import BoltonsVerif.Generated.C01_Effects
 /-
 C01 — property theorems for the OrderedMultiDict model (statements, short derivations from
@@ -504,6 +505,69 @@ theorem sortedvalues_sorted (s : OMD K V) (h : Inv s) (le : V → V → Bool) (r
   cases rev <;> simpa [flipIf] using hab
 
 
+/-! ## list objects: what the dictionary keeps and what the caller holds -/
+
+/-- in every state reached by any history of operations that create, store or hand out list objects
+    (`add`, `addlist` with a list of the caller's or with an iterator, `[]=`, `del`, `popall`, `poplast`,
+    `getlist`, `todict(multi=True)`, `clear`, and the caller making lists and writing to any list it
+    holds): no list object is stored under two keys and none of the stored ones is in the caller's hands -/
+theorem own_separation_history (ops : List (OwnOp K V)) : Sep (ownRun (Own.empty : Own K V) ops) :=
+  ownRun_sep _ sep_empty ops
+
+/-- each of these operations changes the dereferenced storage exactly as the model's `vals` does, and
+    reads and the caller's own doings do not change it at all -/
+theorem own_step_refines (o : Own K V) (h : Sep o) (op : OwnOp K V) :
+    Sep (ownStep o op) ∧ (ownStep o op).vals = valsStep o o.vals op := ownStep_spec h op
+
+/-- `valsStep` IS the `vals` component of the operations of `Model.lean` -/
+theorem own_vals_is_model_vals (o : Own K V) (s : OMD K V) (h : Inv s) (k : K) (v : V) (vs : List V) (d : Bool) :
+    valsStep o s.vals (.add k v) = (s.add k v).vals ∧
+    valsStep o s.vals (.addlistVals k vs) = (s.addlist k vs).vals ∧
+    valsStep o s.vals (.setitem k v) = (s.setitem k v).vals ∧
+    valsStep o s.vals (.delKey k) = (s.delKey k).vals ∧
+    valsStep o s.vals (.popall k) = (s.popall k d).1.vals ∧
+    valsStep o s.vals (.poplast k) = (s.poplastKey k d).1.vals ∧
+    valsStep o s.vals .clear = (OMD.empty : OMD K V).vals := by
+  refine ⟨rfl, ?_, rfl, rfl, ?_, ?_, rfl⟩
+  · simp only [valsStep, OMD.addlist]; split <;> rfl
+  · simp only [valsStep, OMD.popall]
+    cases hk : dget k s.vals with
+    | none => exact ddel_absent k s.vals hk
+    | some vs => rfl
+  · simp only [valsStep, OMD.poplastKey]
+    have hh := h.dhas_eq k
+    cases hk : dget k s.vals with
+    | none =>
+      have : s.cells.any (isK k) = false := by
+        have : dhas k s.vals = false := by simp [dhas, hk]
+        rw [hh] at this; exact this
+      simp [this]
+    | some vs =>
+      have hne : vs ≠ [] := ((h.dget_some k vs).mp hk).2
+      have : s.cells.any (isK k) = true := by
+        have : dhas k s.vals = true := by simp [dhas, hk]
+        rw [hh] at this; exact this
+      obtain ⟨x, hx⟩ := getLast?_of_ne hne
+      simp only [this, ↓reduceIte, hx]
+
+/-- a caller that writes whatever it likes into any list object it holds - one it handed to `addlist`,
+    one it got from `getlist` / `todict(multi=True)` / `popall` - cannot change what the dictionary reads -/
+theorem caller_writes_are_invisible (o : Own K V) (h : Sep o) (i : Nat) (vs : List V) :
+    (o.callerWrite i vs).vals = o.vals ∧ Sep (o.callerWrite i vs) :=
+  ⟨(callerWrite_spec h i vs).2, (callerWrite_spec h i vs).1⟩
+
+/-- `getlist(k)` gives the caller a NEW list object holding the key's values; `popall(k)` gives it the
+    stored object itself, which the dictionary no longer refers to; `addlist(k, a)` takes the contents
+    of the caller's list `a` and not the object -/
+theorem handed_out_lists_are_the_callers (o : Own K V) (h : Sep o) (k : K) :
+    ((o.getlist k).1.look (o.getlist k).2 = (dget k o.vals).getD [] ∧ (o.getlist k).2 ∉ (o.getlist k).1.ids) ∧
+    (∀ i, (o.popall k).2 = some i → o.look i = (dget k o.vals).getD [] ∧ i ∉ (o.popall k).1.ids) ∧
+    (∀ a ∈ o.caller, a ∉ (o.addlistFrom k a).ids ∧ (o.addlistFrom k a).caller = o.caller) := by
+  refine ⟨⟨(getlist_spec' h k).2.2.1, (getlist_spec' h k).2.2.2.1⟩, fun i hi => ?_, fun a ha => ?_⟩
+  · have := (popall_spec' h k).2.2 i hi; exact ⟨this.1, this.2.1⟩
+  · obtain ⟨s1, _, c1⟩ := addlistFrom_spec h k a
+    exact ⟨fun hi => s1.apart a hi (by rw [c1]; exact ha), c1⟩
+
 /-! ## the source, as it is now: which method writes which structure
 
 `Generated.C01.methods` is regenerated on every run from the current source of BOTH copies of the class
@@ -665,5 +729,14 @@ example : (OMD.fromkeys [1, 2, 1] 7 : OMD Nat Nat).cells = [(1, 7), (2, 7), (1, 
 example : (OMD.fromPairs [(0, 1), (1, 2), (0, 3)] : OMD Nat Nat).viewItemsIter = .ok [(0, 3), (1, 2)] ∧
     (OMD.fromPairs [(0, 1), (1, 2), (0, 3)] : OMD Nat Nat).viewItemsContains 0 1 = .ok false ∧
     (OMD.fromPairs [(0, 1), (1, 2), (0, 3)] : OMD Nat Nat).viewValuesContains 3 = .ok true := ⟨rfl, rfl, rfl⟩
+
+/-- the caller appends to the list it handed to `addlist` and to the list `getlist` returned: the storage is as before -/
+example : let o0 : Own Nat Nat := (Own.empty.callerNew [1, 2]).1
+    let o1 := ownRun o0 [.addlistFrom 7 0, .add 7 3, .getlist 7]
+    (o1.vals = [(7, [1, 2, 3])] ∧ o1.caller = [3, 0]) ∧
+    (ownRun o1 [.callerWrite 0 [9], .callerWrite 3 [], .callerWrite 1 [8]]).vals = [(7, [1, 2, 3])] := by decide
+/-- what seeded defect C01-10 amounts to (the dict adopting the caller's list object 0): `Sep` is violated and the write shows -/
+example : let bad : Own Nat Nat := ⟨[(7, 0)], [(0, [1, 2])], 1, [0]⟩
+    ¬ (∀ i ∈ bad.ids, i ∉ bad.caller) ∧ (bad.callerWrite 0 [9]).vals = [(7, [9])] := by decide
 
 end C01
